@@ -28,6 +28,9 @@ THEOREMS = [
      "forall s : str, subseq (concat (quoted_str_split s)) s"),
     ("split_no_amplification",
      "forall s : str, (length (concat (quoted_str_split s)) <= length s)%nat"),
+    ("arguments_compose",
+     "forall a b : str, quotes (run_state split_init a) = QNo -> escaped (run_state split_init a) = 0 -> "
+     "quoted_str_split (a ++ c_space :: b) = quoted_str_split a ++ quoted_str_split b"),
     ("utf8_decode_encode",
      "forall s : str, all_scalar s = true -> utf8_decode (utf8_encode s) = Some s"),
     ("frame_spec",
